@@ -42,6 +42,18 @@ pub fn replay(cases: &str, verdicts: &str) {
             if err > *e { *e = err; }
             v.check(err <= 2f64.powi(-bits), &format!("fit {}", hist), &class, &c, json!({"got": g.as_ref().map(|g| fjs(g)), "rel_err": fj(err)}));
         }
+        // the abscissae in other units (x s with s = 2^-30 and 2^12): the coefficient of x^k is c_k / s^k.  Powers of two rescale the
+        // normal equations exactly, so the same accuracy is demanded coefficient by coefficient - no absolute threshold may enter
+        if v.cases % 3 == 0 {
+            for e in [-30i32, 12] {
+                let s = 2f64.powi(e);
+                let xs: Vec<f64> = x.iter().map(|t| t * s).collect();
+                let g = guard(|| { let mut pr = PolynomialRegressor::new(d); pr.fit(&xs, &y); pr.coef.clone() });
+                let err = g.as_ref().map(|g| if g.len() != coef.len() { f64::INFINITY } else {
+                    g.iter().zip(&coef).enumerate().map(|(k, (a, b))| (a * s.powi(k as i32) - b).abs()).fold(0.0, f64::max) / scale }).unwrap_or(f64::INFINITY);
+                v.check(err <= 2f64.powi(-bits), "fit abscissae-rescaled", &format!("{} {}", class, if e < 0 { "tiny-units" } else { "huge-units" }), &json!({"case": c, "scale_log2": e}), json!({"got": g.as_ref().map(|g| fjs(g)), "rel_err": fj(err)}));
+            }
+        }
         // prediction evaluates c0 + c1 x + ... at each point (coefficient order!)
         let pr = PolynomialRegressor { coef: coef.clone() };
         let pts: Vec<f64> = x.iter().map(|t| t + 0.25).chain(x.iter().cloned()).collect();
